@@ -408,6 +408,10 @@ def alloc_items(tier):
     for sp in F.mixed_wiring_specs():
         for rule in ("SPT", "LPT", "TSLACK"):
             out.append((sp, {"rule": rule, "max_time": F.seq_bound(sp) + 8}))
+    # IDs and names that are unique per kind only (teams and workplaces numbered alike; two tasks of one name under different teams)
+    for sp in F.id_namespace_specs():
+        for rule in ("SPT", "LPT", "TSLACK"):
+            out.append((sp, {"rule": rule, "max_time": F.seq_bound(sp) + 8}))
     return out
 
 
